@@ -61,6 +61,10 @@ def run_property(prop: str, tier: str, seed: int, evidence_dir=None, quiet=False
         rep.stats["optional_argument_defaults"] = check_explicit_arguments(idx, rep, files)
         from .rules.forwarding import check_encoding_forwarding
         rep.stats["encoder_call_sites"] = check_encoding_forwarding(idx, rep, files)
+        from .rules.closures import check_closure_reuse
+        rep.stats["inner_functions"] = check_closure_reuse(idx, rep, files)
+        from .rules.annotations import check_annotation_forwarding
+        rep.stats["self_copies"] = check_annotation_forwarding(idx, rep, files)
         from .rules.elementwise import check_elementwise
         check_elementwise(idx, rep, files)
         from .rules.protocols import check_protocols
